@@ -391,7 +391,7 @@ class LSMTree(Entity):
 
         # Check active memtable first (no I/O)
         value = self._memtable.get_sync(key)
-        if value is not None:
+        if value is not None or self._memtable.contains(key):
             self._total_read_hits += 1
             if value is _TOMBSTONE:
                 return None
@@ -400,7 +400,7 @@ class LSMTree(Entity):
         # Check immutable memtables
         for imm in reversed(self._immutable_memtables):
             value = imm.get_sync(key)
-            if value is not None:
+            if value is not None or imm.contains(key):
                 self._total_read_hits += 1
                 if value is _TOMBSTONE:
                     return None
@@ -424,7 +424,7 @@ class LSMTree(Entity):
                     yield page_reads * self._sstable_read_latency
 
                 result = sstable.get(key)
-                if result is not None:
+                if result is not None or sstable.has_key(key):
                     self._total_read_hits += 1
                     if result is _TOMBSTONE:
                         return None
@@ -438,13 +438,13 @@ class LSMTree(Entity):
         self._total_reads += 1
 
         value = self._memtable.get_sync(key)
-        if value is not None:
+        if value is not None or self._memtable.contains(key):
             self._total_read_hits += 1
             return None if value is _TOMBSTONE else value
 
         for imm in reversed(self._immutable_memtables):
             value = imm.get_sync(key)
-            if value is not None:
+            if value is not None or imm.contains(key):
                 self._total_read_hits += 1
                 return None if value is _TOMBSTONE else value
 
@@ -455,7 +455,7 @@ class LSMTree(Entity):
                     self._total_bloom_saves += 1
                     continue
                 result = sstable.get(key)
-                if result is not None:
+                if result is not None or sstable.has_key(key):
                     self._total_read_hits += 1
                     return None if result is _TOMBSTONE else result
 
